@@ -19,7 +19,7 @@ RULE = ("schemas built top-down to depth <= 4 with every combination of schema-l
         "random format, flat and nested) never override a variable but do set unbound fields, explicit assignment "
         "does; wrongly predicted names are detected because the predicted variable is the only one set; non-trivial = "
         ">= 1 bound field with a non-empty variable and >= 1 unbound or unset field; distinct = distinct case content")
-REQUIRED = ("style:auto", "style:getitem", "style:dotted", "list_item_bound_checked", "list_item_document_names_bound_field",
+REQUIRED = ("second_build_after_environment_change", "family:bytes", "style:auto", "style:getitem", "style:dotted", "list_item_bound_checked", "list_item_document_names_bound_field",
             "setting:ctype-True", "setting:ctype-named", "constructed_ok", "bound_values_checked", "unbound_defaults_checked", "invalid_variable_rejected",
             "loads_do_not_override_checked", "loads_set_unbound_checked", "assignment_overrides_checked",
             "setting:schema-auto", "setting:schema-named", "setting:schema-disabled", "setting:field-auto",
@@ -27,7 +27,7 @@ REQUIRED = ("style:auto", "style:getitem", "style:dotted", "list_item_bound_chec
 ASSUMPTIONS = ["schemas are built top-down (bottom-up construction is outside the quantifier)",
                "the environment is not changed between construction and loads",
                "list / dict / challenge fields are not generated here (known finding K7)"]
-FAMS = ["int", "port", "float", "bool", "str", "str", "host", "loglevel", "ipv4", "url"]
+FAMS = ["int", "port", "float", "bool", "str", "str", "host", "loglevel", "ipv4", "url", "bytes"]
 
 
 def _schema_setting(rng):
@@ -91,14 +91,7 @@ def gen_node(rng, depth, counter, used):
     return {"kind": "schema", "key": "", "fields": fields}
 
 
-def generate(rng, ctx):
-    counter = [0]
-    root = gen_node(rng, rng.choice([1, 2, 3, 4] if ctx.tier == "thorough" else [1, 2, 3]), counter, set())
-    s = _schema_setting(rng)
-    if s == "named":
-        s = rng.choice(["VFROOT", "vfroot", "VfRoot"])
-    if s is not None:
-        root["env"] = s
+def draw_environ(rng, root):
     names = naming(root)
     environ, seen = {}, set()
     for path, node, name in names:
@@ -134,8 +127,22 @@ def generate(rng, ctx):
                     v = gen.one_value(rng, node, "valid", gen.GEN_ENV)
                     if isinstance(v, str) and v and "\x00" not in v:
                         environ[decoy] = v
+    return environ
+
+
+def generate(rng, ctx):
+    counter = [0]
+    root = gen_node(rng, rng.choice([1, 2, 3, 4] if ctx.tier == "thorough" else [1, 2, 3]), counter, set())
+    s = _schema_setting(rng)
+    if s == "named":
+        s = rng.choice(["VFROOT", "vfroot", "VfRoot"])
+    if s is not None:
+        root["env"] = s
+    environ = draw_environ(rng, root)
+    # the process environment changes before a second configuration is built from the SAME schema object
+    environ2 = draw_environ(rng, root) if rng.random() < 0.6 else None
     tree = gen.tree_for(rng, root, gen.GEN_ENV, valid=True, partial=0.3)
-    return {"schema": root, "environ": environ, "tree": tree, "fmt": rng.choice(["json", "yaml", "pickle", "bson", "xml"]),
+    return {"schema": root, "environ": environ, "environ2": environ2, "tree": tree, "fmt": rng.choice(["json", "yaml", "pickle", "bson", "xml"]),
             "assign": rng.random()}
 
 
@@ -236,6 +243,8 @@ def _settings_seen(res, root):
                 res.count("setting:item-%s" % ("named" if isinstance(sch.get("env"), str) else sch.get("env")))
                 walk(sch, depth + 1)
             else:
+                if ch["family"] == "bytes":
+                    res.count("family:bytes")
                 e = ch.get("params", {}).get("env")
                 if e is True:
                     res.count("setting:field-auto")
@@ -274,13 +283,24 @@ def run(case, ctx, res):
     cc = ctx.cc
     root = copy.deepcopy(case["schema"])
     names = naming(root)
-    environ = dict(case["environ"])
-    clash = [n for n in environ if n in os.environ]
-    if clash:
+    rounds = [dict(case["environ"])] + ([dict(case["environ2"])] if case.get("environ2") is not None else [])
+    if any(n in os.environ for e in rounds for n in e):
         return
     _settings_seen(res, root)
-    os.environ.update(environ)
+    os.environ.update(rounds[0])
     built = spec.build(cc, root)
+    for i, environ in enumerate(rounds):
+        if i:
+            for n in rounds[i - 1]:
+                os.environ.pop(n, None)
+            os.environ.update(environ)
+            res.count("second_build_after_environment_change")
+        if not _round(dict(case, environ=environ), ctx, res, cc, root, names, built, environ, "build %d: " % (i + 1) if i else ""):
+            return
+
+
+def _round(case, ctx, res, cc, root, names, built, environ, label):
+    """One configuration built from the (already built) schema under one process environment.  True = go on."""
     env = gen.GEN_ENV
     bound = {}  # path -> (node, name, normal form)
     invalid = []
@@ -294,7 +314,7 @@ def run(case, ctx, res):
             elif ok is False and "[]" not in path and path not in crossing:
                 invalid.append((path, node, name))
             else:
-                return
+                return True
     try:
         cfg = built.schema()
         err = None
@@ -303,25 +323,25 @@ def run(case, ctx, res):
     if invalid:
         res.count("invalid_variable_rejected")
         if err is None:
-            res.viol("M-env", "invalid-variable-accepted", "variables %r are invalid for their fields but the schema call returned" % (
+            res.viol("M-env", "invalid-variable-accepted", label + "variables %r are invalid for their fields but the schema call returned" % (
                 {n: environ[n] for _p, _nd, n in invalid},))
-            return
+            return False
         if not isinstance(err, cc.ValidationError):
             res.viol("M-env", "invalid-variable-wrong-error", "invalid variable surfaced as %s: %s" % (type(err).__name__, str(err)[:150]))
-            return
+            return False
         paths = [p for p, _nd, _n in invalid]
         if err.ref_path not in paths or not str(err).startswith(err.ref_path):
             res.viol("M-env", "invalid-variable-wrong-path", "error names %r (%s); the fields with invalid variables are %r" % (
                 err.ref_path, str(err)[:100], paths))
-            return
+            return False
         res.nontrivial(case["schema"], case["environ"], "invalid")
-        return
+        return True
     if err is not None:
-        res.viol("M-env", "construction-raises", "schema call raised %s: %s with environment %r" % (type(err).__name__, str(err)[:150], environ))
-        return
+        res.viol("M-env", "construction-raises", label + "schema call raised %s: %s with environment %r" % (type(err).__name__, str(err)[:150], environ))
+        return False
     res.count("constructed_ok")
-    if not _check_values(res, cfg, names, bound, None, "construction", case):
-        return
+    if not _check_values(res, cfg, names, bound, None, label + "construction", case):
+        return False
     # documents loaded afterwards never override a variable; unbound fields are loaded
     tree = case["tree"]
     loaded = _tree_norms(root, tree, env)
@@ -338,11 +358,11 @@ def run(case, ctx, res):
         except Exception as exc:
             res.count("load_raised_not_judged")
             res.notes.append("load raised %r" % (exc,))
-            return
-        if not _check_values(res, cfg, names, bound, loaded, how, case):
-            return
-        if not _check_lists(res, cfg, root, tree, "", bound, env, how, case):
-            return
+            return True
+        if not _check_values(res, cfg, names, bound, loaded, label + how, case):
+            return False
+        if not _check_lists(res, cfg, root, tree, "", bound, env, label + how, case):
+            return False
     # explicit assignment beats both
     for path, (node, name, norm) in [kv for kv in bound.items() if "[]" not in kv[0]][:3]:
         v = None
@@ -357,16 +377,17 @@ def run(case, ctx, res):
             cfg[path] = v[0]
         except Exception as exc:
             res.viol("M-env", "assignment-rejected", "assigning %r to the bound field %s raised %r" % (v[0], path, exc))
-            return
+            return False
         res.count("assignment_overrides_checked")
         got = plain(cfg[path])
         if model.match(v[1], got):
             res.viol("M-env", "assignment-does-not-override", "%s bound to %s=%r: after assigning %r it reads %r" % (
                 path, name, environ[name], v[0], got))
-            return
+            return False
     unbound = [p for p, _nd, n in names if p not in bound]
     if bound and unbound:
         res.nontrivial(case["schema"], case["environ"], case["tree"])
+    return True
 
 
 def _eq(a, b):
